@@ -245,6 +245,11 @@ theorem pinauth_gate (cfg : Config) (failed : UInt8) (r : Req) (res : PinResult)
     · simp only [hostGate] at h; split at h <;> cases h
     · cases h
 
+example : respond { evalex := false, pinOn := true } 3
+    { debugger := true, cmd := .pinauth, hasArg := false, secret := .right, frameKnown := false,
+      hostTrusted := true, cookie := .absent, pinRight := true, atConsole := false }
+    = .pinauth ⟨true, false⟩ := by decide
+
 /-- **printpin gate, model**: the PIN is logged / the endpoint answers only for a trusted Host that
 knows the secret. -/
 theorem printpin_gate (cfg : Config) (failed : UInt8) (r : Req) (b : Bool)
@@ -267,6 +272,11 @@ theorem printpin_gate (cfg : Config) (failed : UInt8) (r : Req) (b : Bool)
   · split at h
     · simp only [hostGate] at h; split at h <;> cases h
     · cases h
+
+example : respond { evalex := false, pinOn := true } 0
+    { debugger := true, cmd := .printpin, hasArg := false, secret := .right, frameKnown := false,
+      hostTrusted := true, cookie := .absent, pinRight := false, atConsole := false }
+    = .printpin true := by decide
 
 /-- **untrusted Host, model**: whatever else the request carries, an untrusted Host gets the wrapped
 application, a static resource or SecurityError, and the failure counter is not touched. -/
@@ -351,6 +361,9 @@ theorem true_subdomain (hn rn : List Char) (hdot : hn.head? ≠ some '.')
   simp only [List.nil_append] at hp
   rw [← hp] at hdot
   simp at hdot
+
+example : "sub.localhost".toList.head? ≠ some '.' ∧ ('.' :: "localhost".toList) <:+ "sub.localhost".toList := by
+  decide
 
 /-! ### known finding F20c: bracketed IPv6 literals -/
 
